@@ -411,16 +411,19 @@ def rotation_from_matrix(matrix):
     R33 = R[:3, :3]
     # direction: unit eigenvector of R33 corresponding to eigenvalue of 1
     w, W = np.linalg.eig(R33.T)
-    i = np.where(abs(np.real(w) - 1.0) < 1e-8)[0]
-    if not len(i):
+    # for small angles the complex pair also has a real part close to one:
+    # take the eigenvalue closest to one in the complex plane
+    i = np.argmin(abs(w - 1.0))
+    if abs(w[i] - 1.0) > 1e-8:
         raise ValueError("no unit eigenvector corresponding to eigenvalue 1")
-    direction = np.real(W[:, i[-1]]).squeeze()
+    direction = np.real(W[:, i]).squeeze()
     # point: unit eigenvector of R33 corresponding to eigenvalue of 1
     w, Q = np.linalg.eig(R)
     i = np.where(abs(np.real(w) - 1.0) < 1e-8)[0]
     if not len(i):
         raise ValueError("no unit eigenvector corresponding to eigenvalue 1")
-    point = np.real(Q[:, i[-1]]).squeeze()
+    # eigenvectors of the rotation block end in zero: take the one that is a point
+    point = np.real(Q[:, i[np.argmax(abs(Q[3, i]))]]).squeeze()
     point /= point[3]
     # rotation angle depending on direction
     cosa = (np.trace(R33) - 1.0) / 2.0
